@@ -10,6 +10,7 @@ import os
 import random
 import sys
 import warnings
+import zlib
 from contextlib import redirect_stdout
 
 from bounded.common import Run
@@ -26,7 +27,7 @@ warnings.simplefilter('ignore')
 R = Run('WBEMSubscriptionManager on 1..2 pywbem_mock servers x 1..3 managers vs a ghost model of the server content: '
         'ordered pairs of a 21-id pool (regex metachars, mutual prefixes, case, empty; thorough: all 420, quick: 70) '
         'through create/discover/remove/restart; all op sequences of length <= 2 (quick) / <= 3 (thorough) over a '
-        '17-symbol alphabet for 1 manager x 1 server + seeded longer ones; 14 listener-URL forms x 7 persistence '
+        '18-symbol alphabet for 1 manager x 1 server + seeded longer ones; 14 listener-URL forms x 7 persistence '
         'types x owned/permanent; unregistered-server, colon-in-id, host-in-path scenarios; seeded random histories '
         'of 10..24 ops (duplicate adds, removals in any order, list arguments, restarts, foreign instances)')
 
@@ -602,7 +603,7 @@ def pair_case(id1, id2):
 
 # ---------------------------------------------------------------- family 2: short sequences, 1 manager x 1 server
 
-SYMS = ['REG', 'UNREG', 'RESTART', 'EXIT', 'AF', 'AF2', 'AFp', 'AD', 'ADdup', 'ADp', 'AS', 'ASx', 'ASp', 'RF', 'RFp',
+SYMS = ['REG', 'UNREG', 'RESTART', 'EXIT', 'AF', 'AF2', 'AFp', 'AD', 'ADdup', 'ADpt', 'ADp', 'AS', 'ASx', 'ASp', 'RF', 'RFp',
         'RD', 'RS']
 
 
@@ -631,6 +632,8 @@ def resolve(sym, H):
         return ('add_dest', 0, 0, True, 'd1', 'http://host1:5000', None)
     if sym == 'ADdup':
         return ('add_dest', 0, 0, True, 'd2', 'HTTP://host1:5000', 'transient')
+    if sym == 'ADpt':
+        return ('add_dest', 0, 0, True, 'd3', 'http://host1:5000', 'permanent')
     if sym == 'ADp':
         return ('add_dest', 0, 0, False, 'pywbemdestination:%s' % mid, 'http://host1:5000', None)
     if sym == 'AS':
@@ -672,6 +675,8 @@ def url_case(url, ptype, owned, quick=False):
     ops = [('reg', 0, 0), ('reg', 1, 0), ('add_dest', 0, 0, owned, ident, url, ptype),
            # the canonical spelling of the same URL, same persistence type, other id: reuse iff owned
            ('add_dest', 0, 0, owned, ident + '2', canon, ptype if PTYPES[ptype] != 'bad' else None),
+           # same URL, other persistence type: a new instance
+           ('add_dest', 0, 0, owned, ident + '3', canon, 'permanent' if PTYPES[ptype] in (None, 3) else 'transient'),
            # same URL by another manager: never reused
            ('add_dest', 1, 0, True, 'd.1', canon, None),
            ('add_filter', 0, 0, True, 'f'), ('add_sub', 0, 0, PRE[FIL] + 'abc:f', None, True),
@@ -749,6 +754,20 @@ def dedicated(quick):
              ('add_sub', 0, 0, fn, dn, True), ('add_sub', 0, 0, fn, dn, True), ('add_sub', 1, 0, 'perm1', 'permd1', True),
              ('restart', 0), ('reg', 0, 0), ('add_sub', 0, 0, fn, dn, False), ('rm_filter', 0, 0, fn),
              ('unreg', 0, 0), ('exit', 1)])
+    # one manager on two servers, a second manager on one of them
+    for vi, tail in enumerate(([('unreg', 0, 0), ('unreg', 0, 1)], [('unreg', 0, 1), ('reg', 0, 1), ('unreg_all', 0)],
+                               [('unreg_all', 0)], [('exit_exc', 0)],
+                               [('restart', 0), ('reg', 0, 1), ('exit', 0), ('reg', 0, 0), ('unreg', 0, 0)])):
+        R.case(('two-servers', vi))
+        pf, pd = PRE[FIL] + 'abc:f1', PRE[DST] + 'abc:d1'
+        History('two-servers', ['abc', 'ab'], 2).run(
+            [('reg', 0, 0), ('reg', 0, 1), ('reg', 1, 1), ('foreign_filter', 0, 'perm1'), ('foreign_filter', 1, 'perm1'),
+             ('add_filter', 0, 0, True, 'f1'), ('add_filter', 0, 1, True, 'f1'), ('add_filter', 0, 1, True, 'f2'),
+             ('add_dest', 0, 0, True, 'd1', 'http://host1:5000', None),
+             ('add_dest', 0, 1, True, 'd1', 'http://host1:5000', None),
+             ('add_dest', 1, 1, True, 'd1', 'http://host1:5000', None),
+             ('add_sub', 0, 0, pf, None, True), ('add_sub', 0, 1, pf, None, True), ('add_sub', 0, 1, 'perm1', pd, True),
+             ('add_sub', 1, 1, 'perm1', None, True)] + tail + [('exit', 1)])
     # manager id validation
     for bad, exc in (('a:b', ValueError), (':', ValueError), (None, ValueError), (5, TypeError), (b'abc', TypeError)):
         R.case(('bad-id', repr(bad)))
@@ -860,7 +879,7 @@ def random_history(rnd, idx):
         for m in range(nmgr):
             if not H.step(('exit', m)):
                 break
-    R.case(('rand', idx, len(H.trace), hash(repr(H.trace)) & 0xffffffff))
+    R.case(('rand', idx, len(H.trace), zlib.crc32(repr(H.trace).encode('utf-8'))))
 
 
 # ---------------------------------------------------------------- main
